@@ -121,6 +121,10 @@ def inject(rng, t, toks):
         s, e = rng.choice(nums)
         return kind, t[:e] + rng.choice([b"e", b"E", b"e+", b"E-"]) + t[e:], False
     if kind == "trailing":
+        # any byte that is not JSON whitespace is "trailing non-whitespace" (VT, FF, NBSP, DEL ... included)
+        if rng.random() < 0.5:
+            b = rng.choice([11, 12, 1, 8, 14, 27, 28, 31, 127, 133, 160, 255] + [rng.choice([x for x in range(1, 256) if x not in (9, 10, 13, 32)])])
+            return kind, t.rstrip(b" \t\r\n") + rng.choice([b"", b" ", b"\n"]) + bytes([b]), True
         return kind, t.rstrip(b" \t\r\n") + rng.choice([b"x", b" x", b"[1]", b" 2", b"}", b",", b"\"a\""]), True
     return None
 
